@@ -678,6 +678,30 @@ fn cap_one(ctx: &mut Ctx, c: &Case) {
     if Some(&manual) != cap.ops.as_ref() {
         ctx.violation("C02", &req, "capture_diff_deadline differs from Compact(Replace(hook)) built by hand".to_string());
     }
+    // the documented recipe for expensive items: number them with `IdentifyDistinct`, diff the numbers, read the ops
+    // against the ORIGINAL sequences. With lawful hashes that are coarser than equality (parity, constant, string-like)
+    // the ops must be exactly those of the direct capture (equal numbers mean equal items, nothing else)
+    if c.dl.is_none() && c.o_off == 0 && c.n_off == 0 {
+        for salt in [0, obs::WEAK_HASH, obs::CONST_HASH, obs::STR_HASH] {
+            let old: Vec<OItem> = c.old.iter().map(|&x| OItem(x, salt)).collect();
+            let new: Vec<NItem> = c.new.iter().map(|&x| NItem(x, salt)).collect();
+            let got = std::panic::catch_unwind(std::panic::AssertUnwindSafe(|| {
+                let h = similar::algorithms::IdentifyDistinct::<u32>::new(&old[..], c.os..c.oe, &new[..], c.ns..c.ne);
+                similar::capture_diff(c.alg, h.old_lookup(), h.old_range(), h.new_lookup(), h.new_range())
+                    .iter()
+                    .map(Call::from_op)
+                    .collect::<Vec<Call>>()
+            }))
+            .ok();
+            ctx.count("cap.identify_recipe_runs");
+            if got != cap.ops {
+                let shown = got.as_ref().map(|g| proto::show_calls(g)).unwrap_or_else(|| "a panic".to_string());
+                ctx.violation("C02", &req, format!("IdentifyDistinct + capture_diff (items hashing with salt {:#x}) gives {} -- not the ops of the direct capture, so not a script for the original items", salt, shown));
+                ctx.violation("C14", &req, format!("diffing the numbers IdentifyDistinct assigns (hash salt {:#x}) gives other ops than diffing the items", salt));
+                break;
+            }
+        }
+    }
     // with the repair switch on (model `repair = true`)
     let mut r = c.clone();
     r.repair = true;
@@ -1245,7 +1269,15 @@ pub fn suite_script(ctx: &mut Ctx) {
         let mut rng = Rng::new(ctx.seed ^ 0x5c1 ^ (i as u64).wrapping_mul(0x9E3779B97F4A7C15));
         let fam = [gen::Family::HeavyRepeats, gen::Family::Periodic, gen::Family::SmallAlphabet, gen::Family::NearIdentical][i % 4];
         let size = 2 + rng.below(if i % 5 == 0 { 60 } else { 24 });
-        let (old, new) = gen::gen_pair(&mut rng, fam, size);
+        let (mut old, mut new) = gen::gen_pair(&mut rng, fam, size);
+        if i % 7 == 3 {
+            // one LONG run of changes: two stretches with nothing in common, rewritten a few items at a time (dozens of
+            // delete / insert calls between two equal items), between a shared first and last item
+            let k = rng.range(12, 45);
+            old = std::iter::once(1).chain((0..k as u32).map(|x| 100 + x)).chain(std::iter::once(2)).collect();
+            new = std::iter::once(1).chain((0..rng.range(12, 45) as u32).map(|x| 300 + x)).chain(std::iter::once(2)).collect();
+            ctx.count("script.long_change_run_cases");
+        }
         let (mut o, mut n) = (0, 0);
         let mut s = vec![];
         while o < old.len() || n < new.len() {
